@@ -162,7 +162,7 @@ def snap(q, deep=True):
     res = (type(q).__name__, tuple(q._shape_), tuple(q._numer_), tuple(q._denom_), v.dtype.kind, v.shape, v.tobytes(),
            m.tobytes(), _units_snap(q._units_), bool(q._readonly_), dd)
     if deep:
-        res += (tuple((k, snap(d, False)) for k, d in sorted(q._derivs_.items())),)
+        res += (tuple((k, snap(d, False)) for k, d in sorted(q._derivs_.items(), key=lambda kv: repr(kv[0]))),)
     return res
 
 
@@ -197,7 +197,37 @@ BINOPS = {'add': operator.add, 'sub': operator.sub, 'mul': operator.mul, 'truedi
           'and': operator.and_, 'or': operator.or_, 'xor': operator.xor}
 
 
+BAD_KEYS = {'int': 3, 'tuple': (), 'none': None, 'bytes': b't', 'float': 1.5}
+
+
+def class_constants(clsname):
+    """names of the shapeless class-level constants of exactly this class (shared, read-only objects)"""
+    cls = CLASSES[clsname]
+    return sorted(n for n, v in vars(cls).items() if n.isupper() and type(v) is cls and v._shape_ == ())
+
+
+def apply_badkey(t, a, case):
+    """the derivative mutators (and the copying with_deriv / rename_deriv) with a key that is not a string"""
+    key = BAD_KEYS[case['keykind']]
+    m = case['meth']
+    if m == 'insert_deriv':
+        return t.insert_deriv(key, a)
+    if m == 'insert_derivs':
+        return t.insert_derivs({key: a})
+    if m == 'insert_derivs2':                 # a good key first, the bad one second
+        return t.insert_derivs({'u': a, key: a})
+    if m == 'with_deriv':
+        return t.with_deriv(key, a, method=case.get('method', 'insert'))
+    if m == 'rename_deriv':
+        return t.rename_deriv('t', key)
+    if m == 'delete_deriv':
+        return t.delete_deriv(key)
+    raise KeyError(m)
+
+
 def apply(mut, t, a, case):
+    if mut == 'badkey':
+        return apply_badkey(t, a, case)
     if mut in IOPS:
         return IOPS[mut](t, a)
     if mut in BINOPS:
@@ -242,7 +272,12 @@ def run_case(case):
     """returns dict: exc (None or enum), exc_type, clean (target untouched), arg_clean, result object, emitted warnings"""
     for u, name in _UNIT_NAMES:          # undo DESIGN §2.7 #13 (names of the shared class-level Units objects get cleared),
         u.name = name                    # so that every case starts from the same global state
-    t = build(case['target'], case.get('vseed', 0))
+    const = case.get('const')
+    if const:                              # a shared class constant instead of a fresh object
+        t = getattr(CLASSES[case['target']['cls']], const)
+        keys0, attrs0 = set(t._derivs_), set(t.__dict__)
+    else:
+        t = build(case['target'], case.get('vseed', 0))
     a = build_arg(case['arg'], case.get('vseed', 0) + 1) if case.get('arg') is not None else None
     before_t, before_a = snap(t), snap(a)
     res = {'exc': None, 'etype': None, 'msg': None}
@@ -264,4 +299,12 @@ def run_case(case):
                               and before_t[8][:2] == after_t[8][:2])
     res['arg_clean'] = snap(a) == before_a
     res['target'] = t
+    if const:                              # put the shared constant back, whatever the call did to it
+        for k in list(t._derivs_):
+            if k not in keys0:
+                del t._derivs_[k]
+        for k in list(t.__dict__):
+            if k not in attrs0:
+                del t.__dict__[k]
+        t._cache_.clear()
     return res
